@@ -616,7 +616,7 @@ fn variants_case(case: &Value, stats: &mut Stats) -> CheckResult {
 pub fn property() -> Property {
     Property {
         id: "C09",
-        rule: "format: valid positions (19 sources + a SAN family with 2-5 same-type pieces converging on one square, pins and victims) x \
+        rule: "format: valid positions (20 sources + a SAN family with 2-5 same-type pieces converging on one square, pins and victims) x \
                every reference-legal move: Move::san / styled(San) equal the reference SAN writer (PGN rules: minimal file->rank->both hints \
                among legal moves, x, =Q, O-O, +/# from the successor), SanUtf8 equals the glyph rendering, texts of distinct moves differ, \
                from_san(text) returns the same move; illegal semilegal moves have no SAN. parse_soundness: positions x grammar-built SAN \
